@@ -873,7 +873,7 @@ def check_e10(ctx, rep):
 
 def check(ctx, rep):
     from . import c10 as _c10, _share as _sh
-    _sh.share(ctx, rep, _c10, ('roots.registration-released-on-every-exit',),
+    _sh.share(ctx, rep, _c10, ('roots.registration-released-on-every-exit', 'temporaries.no-boundary'),
               'a stale collector root that was a temporary string makes the next garbage collection end in KeyError')
     from . import c33 as _c33
     _sh.share(ctx, rep, _c33, ('colour.within-mode-range',), 'a drawing colour outside the byte range ends in ValueError when the pixel is written')
